@@ -111,8 +111,51 @@ def rule_derived(ctx, py):
                 if used:
                     return d
         return out
-    vol = chain(inner["get_volume_fundamental_unit"])
-    con = chain(inner["get_concentration_fundamental_units"])
+    def labels_of(kind):
+        """literal list of symbols of one kind in the module-level label table"""
+        for st in f._mod.tree.body:
+            if isinstance(st, ast.Assign) and isinstance(st.value, ast.Dict) and pyfe.src(st.targets[0]) == "_units_labels_dict":
+                for k_, v_ in zip(st.value.keys, st.value.values):
+                    if isinstance(k_, ast.Constant) and k_.value == kind:
+                        try:
+                            return list(ast.literal_eval(v_))
+                        except Exception:
+                            return []
+        return []
+
+    def fold(e, env):
+        """value of a string-building expression over constants and the symbol parameter (slices, +, tuples); None otherwise"""
+        if isinstance(e, ast.Constant):
+            return e.value
+        if isinstance(e, ast.Name):
+            return env.get(e.id)
+        if isinstance(e, ast.Tuple):
+            vs = [fold(x, env) for x in e.elts]
+            return None if any(v is None for v in vs) else tuple(vs)
+        if isinstance(e, ast.BinOp) and isinstance(e.op, ast.Add):
+            a, b = fold(e.left, env), fold(e.right, env)
+            return a + b if isinstance(a, str) and isinstance(b, str) else None
+        if isinstance(e, ast.Subscript) and isinstance(e.slice, ast.Slice) and e.slice.step is None:
+            v = fold(e.value, env)
+            lo = fold(e.slice.lower, env) if e.slice.lower is not None else None
+            hi = e.slice.upper
+            hi = (-fold(hi.operand, env) if isinstance(hi, ast.UnaryOp) and isinstance(hi.op, ast.USub) else fold(hi, env)) \
+                if hi is not None else None
+            return v[lo:hi] if isinstance(v, str) else None
+        return None
+
+    def computed(fn, kind):
+        """symbol -> decomposition when the helper computes it from the symbol's text (`constr[:-1] + "mol", "dm"`)"""
+        p_ = pyfe.params(fn)[0]
+        out = {}
+        for r_ in [x for x in ast.walk(fn) if isinstance(x, ast.Return) and x.value is not None]:
+            for sym in labels_of(kind):
+                v = fold(r_.value, {p_: sym})
+                if v is not None:
+                    out[sym] = v
+        return out
+    vol = chain(inner["get_volume_fundamental_unit"]) or computed(inner["get_volume_fundamental_unit"], "volume")
+    con = chain(inner["get_concentration_fundamental_units"]) or computed(inner["get_concentration_fundamental_units"], "density")
     ctx.need(len(vol) >= 7 and len(con) >= 9, R, "decomposition chains not recognised")
     for sym, base in sorted(vol.items()):
         pre = sym[:-1]
